@@ -63,7 +63,11 @@ def compute_signature(
             # Hash on UFL signature and points
             signature = ufl.algorithms.signature.compute_expression_signature(expr, rn)
             object_signature += signature
-            object_signature += repr(points)
+            # NOTE: repr(points) rounds to 8 digits and elides large arrays,
+            # so different point sets would share a signature
+            points = np.ascontiguousarray(points)
+            object_signature += f"{points.shape}{points.dtype}"
+            object_signature += hashlib.sha1(points.tobytes()).hexdigest()
 
             kind = "expression"
         else:
